@@ -74,6 +74,9 @@ func main() {
 	var mutsAt multiFlag
 	flag.Var(&mutsAt, "mutate-at", "audit: overlay edit relpath@@start@@end@@replacement (byte offsets; repeatable)")
 	auditOnly := flag.Bool("audit", false, "debug: run only the sensitivity audit of -prop and print survivors")
+	auditAll := flag.Bool("audit-all", false, "exploration: judge every systematic mutant of every analysed function with ALL properties (JSON lines)")
+	shard := flag.String("shard", "", "audit-all: k/n")
+	outF := flag.String("out", "", "audit-all: output file")
 	selftest := flag.Bool("selftest", false, "run the pinned witness mutants and benign variants of -prop (or all)")
 	prop := flag.String("prop", "", "property id (C01..C20)")
 	tier := flag.String("tier", "quick", "quick|thorough")
@@ -123,6 +126,9 @@ func main() {
 
 	if *selftest {
 		os.Exit(runSelftest(*prop, *tier))
+	}
+	if *auditAll {
+		os.Exit(runAuditAll(*shard, *outF))
 	}
 	t0 := time.Now()
 	lo := LoadOpts{}
